@@ -260,6 +260,8 @@ def ev_rr(start, stop, script):
         got = script[pos[0]:pos[0] + n]
         pos[0] += n
         got = got + bytes(n - len(got))
+        if len(log) > 200:
+            raise EntropyExhausted("sampler does not terminate")
         log.append({"req": n, "got": hx(got)})
         return got
     out = _val(lambda: numhex(sp.util.unbiased_randrange(start, stop, f)))
@@ -277,8 +279,13 @@ def ev_rr_table(start, width, lo=0, hi=None):
 
         def f(n):
             calls.append(n)
+            if len(calls) > 50:
+                raise EntropyExhausted("sampler does not terminate")
             return r.to_bytes(n, "big") if len(calls) == 1 and r < 256 ** n else bytes(n)
-        res.append(sp.util.unbiased_randrange(start, start + width, f))
+        try:
+            res.append(sp.util.unbiased_randrange(start, start + width, f))
+        except Exception:
+            res.append(-1)
         nreq.append(len(calls))
         nbs.update(calls)
     nb = nbs.pop() if len(nbs) == 1 else -1
